@@ -107,8 +107,16 @@ def main():
         feats = [rng.choice(['f', 'feat ', 'é', 'x-', 'AND ', '']) + str(i) for i in range(n)]
         vals = rng.choice([[0, 1], [-3, -1, 0, 2, 5], list(range(-20, 21)), [1]])
         dens = rng.choice([0.0, 0.3, 1.0])
-        it = {'strategy': rng.choice(['median', 'mean', 'sum']), 'alpha': rng.choice([0, 0.5, 1, 2]), 'beta': rng.choice([0, 0.5, 1, 2]),
-              'rel': {f: rng.choice(vals) for f in feats},
+        big = k % 3 == 2
+        if big:
+            # count-like scores above 2^26: exact in double precision, closer together than single precision resolves
+            # (n = 3, alpha, beta <= 1 and no 'sum' strategy keep the trace arithmetic inside TLC's 32-bit integers)
+            n = 3
+            feats = [rng.choice(['f', 'feat ', 'é', 'x-']) + str(i) for i in range(n)]
+            vals = [2 ** 26 + d for d in (0, 1, 2, 3, 5, 6, 7)]
+            dens = 1.0
+        it = {'strategy': rng.choice(['median', 'mean', 'sum'] if not big else ['median', 'mean']), 'alpha': rng.choice([0, 0.5, 1, 2] if not big else [0.5, 1]), 'beta': rng.choice([0, 0.5, 1, 2] if not big else [0, 0.5, 1]),
+              'rel': ({f: rng.choice(vals) for f in feats} if not (big and k % 2) else {f: vals[0] for f in feats}),      # equal relevances: the pair scores decide
               'red': [[g, f, rng.choice(vals)] for g in feats for f in feats if rng.random() < dens],
               'rln': [[g, f, rng.choice(vals)] for g in feats for f in feats if rng.random() < dens * 0.7]}
         items.append(it)
